@@ -78,6 +78,7 @@ def run_c10(prop, tier, seed, replay=None):
         # real Readers as consumers: their add/withdraw sequences, and what is left when they close
         # two Readers on the same piece, with an eviction in between: a withdrawal must be of what was registered
         scen += [{"kind": "tworeaders", "steps": [], "id": len(scen) + k} for k in range(3 if tier == "quick" else 40)]
+        scen += [{"kind": "twoblocked", "steps": [], "id": len(scen) + k} for k in range(4 if tier == "quick" else 40)]
         for k, (off, ln) in enumerate(READER_RANGES):
             r = run_tlc("MCReader", "Reader_sim%d.cfg" % (k + 1), workers=1, simulate=8 if tier == "quick" else 100, depth=17, seed=seed + k, timeout=1800)
             require_ok(r, "Reader simulation %d" % k)
@@ -150,6 +151,8 @@ def run_c02(prop, tier, seed, replay=None):
             os.unlink(r.outfile)
         if len(scen) < 100:
             raise Internal("Reader simulation: only %d behaviours" % len(scen))
+        # several Readers blocked on one missing piece at the same time (the consumers of Requests.tla are real Readers)
+        scen += [{"kind": "twoblocked", "offset": 0, "length": 0, "steps": []} for _ in range(4 if tier == "quick" else 40)]
         for i, sc in enumerate(scen):
             sc["id"] = i
     if replay and scen[0].get("kind") in ("fuseconc", "farread"):
